@@ -3,11 +3,16 @@ from html import escape
 from protocol_code_generator.generate.code_block import CodeBlock
 
 
+def escape_docstring_text(text):
+    """Escapes text so that it can be placed inside a triple-quoted docstring."""
+    return escape(text, quote=False).replace('\\', '\\\\').replace('"""', '\\"\\"\\"')
+
+
 def generate_docstring(protocol_comment):
     lines = []
 
     if protocol_comment:
-        lines.extend(map(str.strip, escape(protocol_comment, quote=False).split('\n')))
+        lines.extend(map(str.strip, escape_docstring_text(protocol_comment).split('\n')))
 
     result = CodeBlock()
     if lines:
